@@ -172,30 +172,57 @@ Definition wrap (content : str) (hard : N) : str :=
 
 (** [StyledStr::wrap].  A styled string is given by its segmentation: [(true, text)] for the
     pieces [iter_text] yields, [(false, esc)] for the bytes between them (copied verbatim).
-    The wrapper is reset only [if 0 < i], i.e. after a newline inside one text piece. *)
-Fixpoint styled_lines (st : line_wrapper) (i_pos : bool) (lines : list str)
+    The wrapper is reset whenever the previous line ended with a newline ([after_newline]), also
+    across text pieces (repaired behaviour, /repo 63452b4; the pre-repair function, which reset only
+    for the 2nd.. line of one piece, is kept below as [styled_wrap_before_fix]). *)
+Definition ends_with_nl (l : str) : bool := match rev l with 10 :: _ => true | _ => false end.
+
+Fixpoint styled_lines (st : line_wrapper) (after_nl : bool) (lines : list str)
+  : list str * line_wrapper * bool :=
+  match lines with
+  | [] => ([], st, after_nl)
+  | line :: rest =>
+      let st1 := if after_nl then lw_reset st else st in
+      let '(out, st2) := wrap_words st1 (find_words line) in
+      let '(outs, st3, a3) := styled_lines st2 (ends_with_nl line) rest in
+      (out ++ outs, st3, a3)
+  end.
+
+Fixpoint styled_pieces (st : line_wrapper) (after_nl : bool) (segs : list (bool * str)) : list (bool * str) :=
+  match segs with
+  | [] => []
+  | (is_text, content) :: rest =>
+      if (is_text : bool) then
+        let '(out, st', a') := styled_lines st after_nl (split_inclusive content) in
+        (true, concat out) :: styled_pieces st' a' rest
+      else (false, content) :: styled_pieces st after_nl rest
+  end.
+
+Definition styled_wrap (segs : list (bool * str)) (hard : N) : str :=
+  trim_end (concat (map snd (styled_pieces (lw_new hard) false segs))).
+
+(** the function as it was before the repair *)
+Fixpoint styled_lines_before_fix (st : line_wrapper) (i_pos : bool) (lines : list str)
   : list str * line_wrapper :=
   match lines with
   | [] => ([], st)
   | line :: rest =>
       let st1 := if i_pos then lw_reset st else st in
       let '(out, st2) := wrap_words st1 (find_words line) in
-      let '(outs, st3) := styled_lines st2 true rest in
+      let '(outs, st3) := styled_lines_before_fix st2 true rest in
       (out ++ outs, st3)
   end.
-
-Fixpoint styled_pieces (st : line_wrapper) (segs : list (bool * str)) : list (bool * str) :=
+Fixpoint styled_pieces_before_fix (st : line_wrapper) (segs : list (bool * str)) : list (bool * str) :=
   match segs with
   | [] => []
   | (is_text, content) :: rest =>
       if (is_text : bool) then
-        let '(out, st') := styled_lines st false (split_inclusive content) in
-        (true, concat out) :: styled_pieces st' rest
-      else (false, content) :: styled_pieces st rest
+        let '(out, st') := styled_lines_before_fix st false (split_inclusive content) in
+        (true, concat out) :: styled_pieces_before_fix st' rest
+      else (false, content) :: styled_pieces_before_fix st rest
   end.
-
-Definition styled_wrap (segs : list (bool * str)) (hard : N) : str :=
-  trim_end (concat (map snd (styled_pieces (lw_new hard) segs))).
+Definition styled_wrap_before_fix (segs : list (bool * str)) (hard : N) : str :=
+  trim_end (concat (map snd (styled_pieces_before_fix (lw_new hard) segs))).
 
 (** [StyledStr::display_width]: sum over the text pieces *)
 Definition styled_display_width (segs : list (bool * str)) : N :=
